@@ -40,7 +40,10 @@ def unwrap_nan(t):
         if c[0] == "not" and c[1][0] == "f" and c[1][1] == "isnan" and c[1][2] == (a,) and b == neg_inf:
             return a, "where(~isnan(v), v, -inf)"
     if t[0] == "f" and t[1] == "nan_to_num" and t[2] and dict(t[3]).get("nan") == neg_inf:
-        return t[2][0], "nan_to_num(v, nan=-inf)"
+        # nan_to_num also rewrites infinities unless told otherwise: -inf must stay -inf
+        if dict(t[3]).get("neginf") == neg_inf:
+            return t[2][0], "nan_to_num(v, nan=-inf, neginf=-inf)"
+        return None, None
     return None, None
 
 
@@ -54,7 +57,10 @@ def check_target(ctx, repo, c, m, smc: bool, beta_term, z_term, construct):
     if smc:
         inner, how = unwrap_nan(ret)
         if inner is None:
-            ctx.refute("C05.nan", construct, loc_of(m), f"returned tempered value is not passed through a NaN -> -inf map: {T.show(ret)[:200]}")
+            extra = ""
+            if ret[0] == "f" and ret[1] == "nan_to_num":
+                extra = " (nan_to_num without neginf=-inf turns a zero-prior -inf into the most negative *finite* number)"
+            ctx.refute("C05.nan", construct, loc_of(m), f"returned tempered value is not passed through a NaN -> -inf map that keeps -inf: {T.show(ret)[:160]}{extra}")
         else:
             ctx.prove("C05.nan", construct, loc_of(m), f"NaN -> -inf by {how}")
             val = inner
@@ -227,6 +233,7 @@ MUTANTS = [
     M("minipcn override drops beta", _MP, "return super().log_prob(x, beta)", "return super().log_prob(x)", "C05.id"),
 ]
 MUTANTS += [
+    M("NaN map that also makes -inf finite", _BJ, "log_prob = self.xp.where(\n            self.xp.isnan(log_prob), -self.xp.inf, log_prob\n        )", "log_prob = self.xp.nan_to_num(log_prob, nan=-self.xp.inf)", "C05.nan"),
     M("minipcn kernel built without the target", _MP, "log_prob_fn=log_prob_fn,\n            step_fn", "log_prob_fn=self.log_prior,\n            step_fn", "C05.bind"),
 ]
 NEUTRALS = [
